@@ -7,6 +7,7 @@ CONSTANTS
   FixD10 = TRUE
   FixD12 = TRUE
   FixD17 = TRUE
+  FixD18 = TRUE
 INVARIANT TypeOK
 INVARIANT C04_OnlySnapshotOnce
 INVARIANT C04_InQueueOrder
